@@ -332,3 +332,31 @@ def checkJac (t : Rat) (analytic approx : List Vec) (rows cols : List Nat) : Boo
     closeEntry t (getR (analytic.getD r []) c) (getR (approx.getD r []) c)))
 
 end GV.C16
+
+namespace GV.C16
+
+/-- The only state of a gradient approximator that `f_gradient`/`generate_perturbations` read:
+    the default step (`self.step`, set by the constructor or the `step` setter). -/
+structure Approx where
+  step : Step
+
+def Approx.setStep (_ : Approx) (s : Step) : Approx := ⟨s⟩
+
+/-- `if step is None: step = self.step`. -/
+def Approx.resolve (a : Approx) (arg : Option Step) : Step := arg.getD a.step
+
+/-- `generate_perturbations` of the three schemes as the list of columns of the returned array
+    (complex step: the imaginary parts, the real parts are zero). -/
+def fdPerts (sp : Option Space) (x : Vec) (s : Step) (idx : List Nat) : List Vec :=
+  (fdGenerate sp x s (effIndices x.length idx)).1
+
+def fdSteps (sp : Option Space) (x : Vec) (s : Step) (idx : List Nat) : List Rat :=
+  (fdGenerate sp x s (effIndices x.length idx)).2
+
+def cdPerts (sp : Option Space) (x : Vec) (s : Step) (idx : List Nat) : List Vec :=
+  cdGenerate sp x s (effIndices x.length idx)
+
+def csPerts (x : Vec) (s : Step) (idx : List Nat) : List Vec :=
+  (csGenerate x s (effIndices x.length idx)).map (fun p => p.map (·.im))
+
+end GV.C16
